@@ -422,6 +422,17 @@ func (e *Engine) specCall(env *SpecEnv, x *SExpr) Value {
 		e.ctx.Axiom("smark:"+a.Sort.String(), []string{"smark:" + a.Sort.String()}, ForallPat([]Term{sv}, [][]Term{{T("(" + mk + " s!sm)", SBool)}}, T("("+mk+" s!sm)", SBool)))
 		return And(T("("+mk+" "+a.S+")", SBool), T("("+mk+" "+b.S+")", SBool),
 			ForallPat([]Term{x}, [][]Term{{Select(a, x)}, {Select(b, x)}}, Iff(Select(a, x), Select(b, x))))
+	case "intset":
+		// intset(): the empty set of integers (object identities)
+		return ConstArray(ArrSort(SInt, SBool), TFalse)
+	case "setadd", "setdel":
+		// setadd(s, x) / setdel(s, x)
+		need(2)
+		a, x := e.evalSpecTerm(env, args[0]), e.evalSpecTerm(env, args[1])
+		if a.Sort.K != KArray || a.Sort.Val.K != KBool {
+			sfail("%s needs a set", name)
+		}
+		return Store(a, x, BoolLit(name == "setadd"))
 	case "emptyset":
 		// emptyset(s): the empty set of the same type as the set s
 		need(1)
@@ -847,11 +858,16 @@ func (e *Engine) eventRes(st *State, key string, args []Term, res []Term) {
 	if len(res) > len(st.callsR) {
 		panic(unsupported("recorded call with more than 3 result words: " + key))
 	}
-	for i, r := range res {
+	allInt := true
+	for _, r := range res {
 		if r.Sort.K != KInt {
-			panic(unsupported("recorded call with a non-integer result word: " + key))
+			allInt = false // results of other sorts (bool, string, float) are not recorded
 		}
-		st.callsR[i] = e.ctx.Define("callsR", Store(st.callsR[i], st.callsLen, r))
+	}
+	for i, r := range res {
+		if allInt {
+			st.callsR[i] = e.ctx.Define("callsR", Store(st.callsR[i], st.callsLen, r))
+		}
 	}
 	st.calls = e.ctx.Define("calls", Store(st.calls, st.callsLen, ev))
 	st.callsLen = e.ctx.Define("callsLen", Add(st.callsLen, IntLit(1)))
